@@ -335,7 +335,7 @@ func formatSafeEmpty(c *Ctx, fam map[*ssa.Function]int, raisers map[*ssa.Functio
 						continue
 					}
 					cal := call.Common().StaticCallee()
-					if !isFormatter(cal) || !cal.Signature.Variadic() {
+					if !isFormatter(cal) || !takesArgList(cal) {
 						continue
 					}
 					args := call.Common().Args
@@ -362,6 +362,24 @@ func formatSafeEmpty(c *Ctx, fam map[*ssa.Function]int, raisers map[*ssa.Functio
 		}
 	}
 	return safe
+}
+
+// takesArgList: the last parameter is an argument list - variadic, or a plain []interface{} (a helper that is handed the
+// list of its variadic caller).
+func takesArgList(fn *ssa.Function) bool {
+	if fn.Signature.Variadic() {
+		return true
+	}
+	ps := fn.Signature.Params()
+	if ps.Len() == 0 {
+		return false
+	}
+	sl, ok := ps.At(ps.Len() - 1).Type().Underlying().(*types.Slice)
+	if !ok {
+		return false
+	}
+	it, ok := sl.Elem().Underlying().(*types.Interface)
+	return ok && it.Empty()
 }
 
 // sameLenCopyOf: v is a slice made with the length of the parameter list p (`args := make([]interface{}, len(in))`, filled
@@ -400,7 +418,7 @@ func printfFamily(c *Ctx) map[*ssa.Function]int {
 	for changed := true; changed; {
 		changed = false
 		for _, fn := range c.AllSrcFuncs("", "parser", "file", "ast", "token") {
-			if _, in := fam[fn]; in || !fn.Signature.Variadic() || len(fn.Params) < 2 {
+			if _, in := fam[fn]; in || !takesArgList(fn) || len(fn.Params) < 2 {
 				continue
 			}
 			vp := fn.Params[len(fn.Params)-1]
